@@ -74,16 +74,19 @@ def split_runs(evs):
 
 
 def roles(evs):
+    """worker threads have R/W lines; of the other two the writer is the one whose
+       sections are `out_slots++`.  (`next_id` is incremented by the reader outside
+       sched_mutex, so `next=` on other threads' lines may run ahead: never used.)"""
     workers = {e['tid'] for e in evs if e['kind'] in 'RW'}
     rd = wr = None
     prev = None
     for e in evs:
         if e['kind'] == 'U' and e['tid'] not in workers and prev is not None:
-            if e['next'] > prev['next'] or e['eof'] > prev['eof']:
-                rd = e['tid']
-            elif e['os'] > prev['os']:
+            if e['os'] == prev['os'] + 1:
                 wr = e['tid']
-        if 'next' in e:
+            else:
+                rd = e['tid']
+        if 'coll' in e:
             prev = e
     return workers, (rd if rd is not None else 9998), (wr if wr is not None else 9999)
 
@@ -96,11 +99,13 @@ def shape(evs, ultra):
     chunks = {}           # major -> list of flags
     cur = {}              # tid -> dict
     prev = None
+    nid = 0
     for e in evs:
         k, t = e['kind'], e['tid']
-        if k == 'U' and t == rd and prev is not None and e['next'] > prev['next']:
-            coll.add((e['next'] - 1, 0))
-            chunks[e['next'] - 1] = []
+        if k == 'U' and t == rd and prev is not None and e['eof'] == prev['eof']:
+            coll.add((nid, 0))
+            chunks[nid] = []
+            nid += 1
         elif k in 'RW' and t in workers:
             c = cur.pop(t, None)
             if c is not None and c.get('pos') is not None and not c.get('closed'):
@@ -125,7 +130,7 @@ def shape(evs, ultra):
                 c['full'] = True
             elif prev is not None and prev['ct'] == 0 and e['ct'] == 1:
                 c['full'] = True
-        if 'next' in e:
+        if 'coll' in e:
             prev = e
     return [chunks[m] for m in sorted(chunks)], rd, wr
 
@@ -155,20 +160,21 @@ def ev_str(e):
 
 
 class Driver:
+    """the Lean driver answers when stdin closes (its stdout is block-buffered):
+       one process per batch of requests"""
     def __init__(self, path):
-        self.p = subprocess.Popen([path], stdin=subprocess.PIPE, stdout=subprocess.PIPE, text=True)
+        self.path = path
+
+    def ask_many(self, lines, timeout=1800):
+        r = subprocess.run([self.path], input='\n'.join(lines) + '\n', text=True,
+                           stdout=subprocess.PIPE, timeout=timeout)
+        return r.stdout.split('\n')[:len(lines)]
 
     def ask(self, line):
-        self.p.stdin.write(line + '\n')
-        self.p.stdin.flush()
-        return self.p.stdout.readline().strip()
+        return self.ask_many([line])[0].strip()
 
     def close(self):
-        try:
-            self.p.stdin.close()
-            self.p.wait(timeout=10)
-        except Exception:
-            self.p.kill()
+        pass
 
 
 def accept(drv, evs, n, ultra, total_in=None):
